@@ -123,9 +123,18 @@ func (value Value) Compare(other Value) int {
 			return -1
 		} else if value.Float > other.Float {
 			return 1
-		} else {
+		} else if value.Float == other.Float {
 			return 0
 		}
+		// At least one side is NaN. To keep the ordering total (and equality transitive)
+		// NaN sorts before every other float and all NaNs are equal to each other.
+		valueNaN, otherNaN := math.IsNaN(value.Float), math.IsNaN(other.Float)
+		if valueNaN && otherNaN {
+			return 0
+		} else if valueNaN {
+			return -1
+		}
+		return 1
 
 	case TypeIDBoolean:
 		if value.Boolean == other.Boolean {
@@ -260,7 +269,14 @@ func (value Value) hash(hash uint64) uint64 {
 		hash = fnv1a.AddUint64(hash, uint64(value.Int))
 
 	case TypeIDFloat:
-		hash = fnv1a.AddUint64(hash, math.Float64bits(value.Float))
+		// Values which compare equal must hash equally: -0 == +0 and all NaNs are equal.
+		f := value.Float
+		if f == 0 {
+			f = 0
+		} else if f != f {
+			f = math.NaN()
+		}
+		hash = fnv1a.AddUint64(hash, math.Float64bits(f))
 
 	case TypeIDBoolean:
 		if value.Boolean {
